@@ -32,7 +32,9 @@ type AnnotationLinkValidator struct {
 }
 
 // NewAnnotationLinkValidator constructs the validator.
-func NewAnnotationLinkValidator(recv *metadata.ReceiverMeta) (AnnotationLinkValidator, error) {
+// NewAnnotationLinkValidator creates a link validator for the given receiver.
+// routePrefix is the parent controller's route, if any - URL parameters it declares are part of the receiver's full route
+func NewAnnotationLinkValidator(recv *metadata.ReceiverMeta, routePrefix ...string) (AnnotationLinkValidator, error) {
 	if recv == nil {
 		return AnnotationLinkValidator{}, errors.New("cannot construct an annotation link validator for a nil receiver")
 	}
@@ -46,7 +48,7 @@ func NewAnnotationLinkValidator(recv *metadata.ReceiverMeta) (AnnotationLinkVali
 		receiver:          recv,
 		groupedAttributes: classifiedAttrs,
 		funcParamNames:    getReceiverParamsNameSet(recv),
-		urlParams:         extractUrlParams(classifiedAttrs.route.Value),
+		urlParams:         extractUrlParams(strings.Join(routePrefix, "") + classifiedAttrs.route.Value),
 	}, nil
 }
 
